@@ -12,7 +12,7 @@ TECHNIQUE = "deterministic simulation (component lane): the real make_fragments/
 RULE = ("each run executes 40 explicit scenarios in one process: frames (body 0..65535, address none/IPv4/IPv6/domain) fragmented by the real make_fragments at MTUs from 5 up "
         "(biased to small values and quinn's), ids started near the 65535 wrap, channel schedules with permutation, duplication before and after completion, interleaving "
         "of several frames, loss, delays straddling the 5 s reassembly timeout with 1 s timer ticks, hostile fragments (short, seq>=total, total=0, total>=128, "
-        "inconsistent totals), id reuse after abandoned and after completed groups (crafted by an independent fragmenter), oversize frames, >65536 frames (thorough), "
+        "inconsistent totals), id reuse after abandoned, after completed and during pending groups (crafted by an independent fragmenter), oversize frames, >65536 frames (thorough), "
         "all permutations x duplications of <= 6 fragments (thorough); non-trivial = a frame of >= 2 fragments met reordering, duplication, loss or a timer; "
         "distinct = distinct scenario schedules")
 LEVEL_TEXT = ("seeded exploration plus enumeration of small schedules against the real Fragments code inside the binary: safety (only sent frames, at most once), liveness "
@@ -68,7 +68,7 @@ def crafted(rng, fid, mtu, blen):
 
 
 def scenario(rng, tier, idx):
-    cls = rng.choice(["perm", "perm", "perm", "loss", "timeout", "hostile", "hostile", "reuse-abandoned", "reuse-completed", "wrap", "oversize", "dup-after"])
+    cls = rng.choice(["perm", "perm", "perm", "loss", "timeout", "hostile", "hostile", "reuse-abandoned", "reuse-completed", "reuse-pending", "wrap", "oversize", "dup-after"])
     if tier == "thorough" and idx % 7 == 0:
         cls = "enum"
     mtu = rng.choice(MTUS)
@@ -190,6 +190,36 @@ def scenario(rng, tier, idx):
         rng.shuffle(mine)
         half = len(mine) // 2
         ev += [["d", i, j] for i, j in mine[:half]] + [["sleep", rng.choice([0, 600, 1200, 3000])]] + [["d", i, j] for i, j in mine[half:]]
+        ev += [["d", i, j] for i, j in rest]
+    elif cls == "reuse-pending":
+        # frame 0 is only partly there (its group is pending) when a complete frame with the same id but another fragment
+        # count arrives (a sender whose counter wrapped, or a confused one): the two must never be merged into a frame that
+        # nobody sent; later the rest of frame 0 may arrive
+        fid = sc["start_id"]
+        m = max(sc["mtu"], 40)
+        sc["mtu"] = m
+        if sc["frames"][0]["len"] < 2 * m:
+            sc["frames"][0]["len"] = rng.choice([2 * m, 3 * m + 5, 5 * m])
+        counts = [max(0, nfrags(header_len(f["addr"]) + f["len"], m)) for f in sc["frames"]]
+        sc["counts"] = counts
+        pairs = [(i, j) for i, c in enumerate(counts) for j in range(min(c, 300))]
+        c0 = counts[0]
+        other = rng.choice([c0 + 1, c0 + 2, 2 * c0, max(2, c0 - 1)])
+        frs, desc = crafted(rng, fid, m, min(60000, max(1, other * (m - 4) - 20 - rng.randint(0, m - 5))))
+        sc["crafted"].append(desc)
+        mine = [p for p in pairs if p[0] == 0]
+        rest = [p for p in pairs if p[0] != 0]
+        first = [mine[0]] + rng.sample(mine[1:], rng.randint(0, max(0, len(mine) - 2)))
+        later = [p for p in mine if p not in first]
+        ev += [["d", i, j] for i, j in first]
+        ev.append(["sleep", rng.choice([0, 100, 2000])])
+        order = list(range(len(frs)))
+        if rng.random() < 0.5:
+            rng.shuffle(order)
+        ev += [["raw", frs[j].hex()] for j in order]
+        if rng.random() < 0.6:
+            ev.append(["sleep", rng.choice([0, 500])])
+            ev += [["d", i, j] for i, j in later]
         ev += [["d", i, j] for i, j in rest]
     sc["events"] = ev
     return sc
